@@ -729,6 +729,10 @@ func (ex *Exec) finishCall(st *State, pc *preparedCall, k func(*State, []Val)) {
 		k(st, ex.callbackApp(*pc.funVal, sel.Sel.Name, pc.sig, pc.args))
 		return
 	}
+	if id, ok := unparen(call.Fun).(*ast.Ident); ok && pc.funVal != nil && ex.pureCallbackField(id.Name) {
+		k(st, ex.callbackApp(*pc.funVal, id.Name, pc.sig, pc.args))
+		return
+	}
 	ex.unknownCall(st, pc, "func value "+nodeString(ex.fset, call.Fun), k)
 }
 
@@ -743,6 +747,30 @@ func (ex *Exec) resultVals(st *State, sig *types.Signature, hint string) []Val {
 // unknownCall: no contract. Results are arbitrary, the heap and everything
 // reachable by the callee is havocked.
 func (ex *Exec) unknownCall(st *State, pc *preparedCall, what string, k func(*State, []Val)) {
+	if pc.fn == nil && pc.funVal != nil && ex.countsCallbacks() {
+		// opt-in bookkeeping of calls through function values (functions whose contract lists
+		// ghost.cbCalls in modifies): how often each function value was called, and on which references
+		ex.intrinsics["calls through function values are counted in ghost.cbCalls and their reference arguments recorded in ghost.cbArgs"] = true
+		gc, ga := ex.cs.Ghost["cbCalls"], ex.cs.Ghost["cbArgs"]
+		if gc != nil && ga != nil {
+			oc := ex.ghostGet(st, gc)
+			cur := app("select", app("m-val", oc.T), pc.funVal.T)
+			st.ghost["cbCalls"] = mapStore(oc, pc.funVal.T, app("+", cur, "1")).T
+			oa := ex.ghostGet(st, ga)
+			t := oa.T
+			for i, a := range pc.args {
+				if a.S.K == KRef {
+					t = app("store", t, a.T, "true")
+					// per-position sets cbArg0, cbArg1, ... where declared
+					if gp := ex.cs.Ghost[fmt.Sprintf("cbArg%d", i)]; gp != nil {
+						op := ex.ghostGet(st, gp)
+						st.ghost[gp.Name] = app("store", op.T, a.T, "true")
+					}
+				}
+			}
+			st.ghost["cbArgs"] = t
+		}
+	}
 	if pc.fn == nil && funcValueIsSink(pc.sig) {
 		// a callback returning error is treated as an I/O sink: it raises ghost.fail iff it reports an error
 		ex.intrinsics["calls through function values returning error: ghost.fail == old(ghost.fail) || err != nil (callbacks report their own failures)"] = true
@@ -767,6 +795,18 @@ func (ex *Exec) unknownCall(st *State, pc *preparedCall, what string, k func(*St
 		}
 	}
 	k(st, ex.resultVals(st, pc.sig, shortKey(what)))
+}
+
+func (ex *Exec) countsCallbacks() bool {
+	if ex.fc == nil {
+		return false
+	}
+	for _, m := range ex.fc.Modifies {
+		if m == "ghost.cbCalls" {
+			return true
+		}
+	}
+	return false
 }
 
 func funcValueIsSink(sig *types.Signature) bool {
